@@ -404,7 +404,11 @@ class Quaternion(SMUserList):
         exp_s = math.exp(self.s)
         norm_v = base.norm(self.v)
         s = exp_s * math.cos(norm_v)
-        v = exp_s * self.v / norm_v * math.sin(norm_v)
+        if norm_v == 0:
+            # zero vector part, sin(|v|)/|v| -> 1
+            v = exp_s * self.v
+        else:
+            v = exp_s * self.v / norm_v * math.sin(norm_v)
         if abs(self.s) < 100 * _eps:
             # result will be a unit quaternion
             return UnitQuaternion(s=s, v=v)
